@@ -236,6 +236,26 @@ def run_algebra(case, ctx):
             pass
     model.reset_estimates()
     ctx.check(np.array_equal(model.transform, np.eye(3)) and np.array_equal(model.bias, np.zeros(3)), 'reset_incomplete', '')
+    # after a reset that FOLLOWS non-zero updates the correction must be the identity again (nothing cached survives the reset)
+    ident = ctx.sut(model.correct_increments, pd.Series(dt, index=readings.index), out)
+    ctx.check(np.array_equal(ident.values, out.values), 'correction_not_identity_after_reset',
+              lambda: f'max deviation {np.abs(ident.values - out.values).max():.3e} after update -> reset')
+    ctx.check(np.all(model.get_estimates().values == 0.0), 'estimates_not_zero_after_reset', '')
+    # a walking bias whose constant part is exactly zero is still a bias the estimator has to name
+    if walk_on.any():
+        wpar = isn.Parameters(bias_walk=walk_sd, rng=int(case['sub'] % 1000))
+        wout = ctx.sut(wpar.apply, readings, stype)
+        wnames = [f'bias_{XYZ[a]}' for a in range(3) if walk_on[a]]
+        ctx.check(list(wpar.data_frame.columns) == wnames, 'walk_only_bias_missing_from_parameter_table',
+                  lambda: f'{list(wpar.data_frame.columns)} expected {wnames}')
+        k = dt[:, None] if stype == 'increment' else 1.0
+        werr = wout.values - x
+        wexp = np.zeros_like(x)
+        for j, a in enumerate([a for a in range(3) if walk_on[a]]):
+            wexp[:, a] = wpar.data_frame[wnames[j]].values
+        ctx.check(np.abs(werr - wexp * k).max() <= 64 * EPS * (1 + np.abs(x).max() + np.abs(wexp).max()), 'walk_table_differs_from_simulated_bias',
+                  lambda: f'{np.abs(werr - wexp * k).max():.3e}')
+        ctx.label('walk_only_checked')
     offdiag = sm_on.copy()
     offdiag[np.diag_indices(3)] = False
     ctx.mark_nontrivial(offdiag.any() and bias_on.any())
